@@ -41,7 +41,7 @@ func init() {
 		MinEvals:        floor(8000, 150000),
 		MinDistinct:     floor(2000, 40000),
 		RequiredCells: func(string) []string {
-			cells := []string{"purity/did/history", "purity/did/concurrent", "rsa-shapes", "rsa-shapes/small-exponent", "rsa-shapes/odd-bit-length", "coerced-secp256k1/normal", "coerced-secp256k1/short-coordinate", "pairs/equal", "pairs/different", "alt/accepted-canonical", "alt/rejected-by-parse", "alt/rejected-by-pubkey", "string/rejected", "string/decorated", "multibase/other", "codec/unsupported", "varint/non-minimal"}
+			cells := []string{"purity/did/history", "purity/did/concurrent", "purity/did/churn-between-passes", "degenerate/fresh", "degenerate/after-printing-undefined-values", "rsa-shapes", "rsa-shapes/small-exponent", "rsa-shapes/odd-bit-length", "coerced-secp256k1/normal", "coerced-secp256k1/short-coordinate", "pairs/equal", "pairs/different", "alt/accepted-canonical", "alt/rejected-by-parse", "alt/rejected-by-pubkey", "string/rejected", "string/decorated", "multibase/other", "codec/unsupported", "varint/non-minimal"}
 			for _, a := range []string{"ed25519", "secp256k1", "p256", "p384", "p521", "rsa2048", "rsa3072", "rsa4096", "rsa8192"} {
 				cells = append(cells, "roundtrip/"+a)
 			}
@@ -235,6 +235,10 @@ func c16Judge(w *mon.W, kind, s string, from *gen.Principal) {
 	}
 	if perr != nil {
 		w.Cover("alt/rejected-by-parse")
+		return
+	}
+	if d == did.Undef {
+		w.Violate("parse-returns-undefined/"+kind, fmt.Sprintf("did.Parse(%q) reports success but returns the undefined DID", s), c)
 		return
 	}
 	var k crypto.PubKey
@@ -529,6 +533,17 @@ func runC16(w *mon.W) {
 				}
 			}
 		}
+	}
+	// degenerate identifiers - among them whatever the undefined DID prints as - before and after
+	// calls that print undefined values (failing constructors do, in their error messages)
+	for pass, label := range []string{"fresh", "after-printing-undefined-values"} {
+		if pass == 1 {
+			churn(8)
+		}
+		for _, s := range []string{"did:key:z", "did:key:", "did:key", "did:", "", "z", did.Undef.String(), "did:key:z ", "did:key:Z", "did:key:z1", "did:key:z11", "did:key:m", "did:key:zz"} {
+			c16Judge(w, "degenerate", s, nil)
+		}
+		w.Cover("degenerate/" + label)
 	}
 	// unsupported codecs over plausible material, and random strings
 	for i := 0; i < w.Share(w.Pick(9000, 60000)); i++ {
